@@ -149,17 +149,27 @@ class C16(Check):
         self.no_clobber(d, f"{n}i", asm, prtxt, fmt, wl, subset, case, ctx, lambda name: clean[name])
         # ... and as symbolic links to files kept elsewhere
         self.no_clobber(d, f"{n}l", asm, prtxt, fmt, wl, subset, case, ctx, lambda name: SENTINEL + name.encode(), as_symlink=True)
+        # ... and in a directory this process wrote into before (then emptied)
+        self.no_clobber(d, f"{n}p", asm, prtxt, fmt, wl, subset, case, ctx, lambda name: SENTINEL + name.encode(), prerun=True)
         # --- clobber twins: the default, and --clobber given explicitly
         for explicit in (None, True):
             self.clobber_twin(d, f"{n}{'e' if explicit else 'd'}", asm, prtxt, fmt, wl, subset, clean, case, explicit, ctx)
 
-    def no_clobber(self, d, n, asm, prtxt, fmt, wl, subset, case, ctx, content, retry_clean=None, as_symlink=False, extra_args=()):
+    def no_clobber(self, d, n, asm, prtxt, fmt, wl, subset, case, ctx, content, retry_clean=None, as_symlink=False, extra_args=(), prerun=False):
         import os
 
         ctx.evaluations += 1
         if len(subset) > 1:
             ctx.nontrivial += 1
         outd = self.fresh_out(d, f"n{n}")
+        if prerun:
+            # history: this process has already written into the directory (an ordinary run), and the directory was
+            # emptied afterwards; what the tool saw then must not decide what exists now
+            rc0, _o, err0, _exc = cli.invoke_p2a(self.args(asm, prtxt, outd, fmt, wl, None))
+            if rc0 != 0:
+                ctx.violation("clean-run-fails/prerun", case, f"exit {rc0}: {err0[-300:]!r}")
+            for name in cli.dir_files(outd):
+                os.unlink(outd / name)
         side = None
         if as_symlink:
             side = self.fresh_out(d, f"t{n}")
@@ -257,3 +267,4 @@ _ = Path
 CHECK = C16()
 # scope added in later rounds, kept in the evidence text
 CHECK.rule += ' The pre-existing files also as empty files. A third map in Primary mode with a second curated haplotype and a haplotig (merged all_haplotigs assembly). The sentinel run again with --log-level ERROR. Pre-existing files also with exactly the bytes the run would write, and as symbolic links to files elsewhere (the link must survive). History: the refused --no-clobber run is repeated at once in the same process and directory with the default --clobber: exit 0 and every file == clean run.'
+CHECK.rule += ' History: every subset also in a directory that an ordinary run of the same process wrote into first (emptied before the sentinel files are placed).'
